@@ -161,13 +161,19 @@ def run(ctx):
     ctx.instance(R3, "fix_exec_report_msg[ExecID(17) := _next_exec_id() unconditionally, once]", bool(once),
                  "the report's ExecID is not drawn from _next_exec_id exactly once on every path", loc(er))
     # OrderID: wherever it is produced (inline or in a helper method), it is the order's own id, else the remembered one, else a new remembered one
-    prod = None
-    for q, f in sorted(repo.functions.items()):
-        if q.startswith(T + ".") and any(isinstance(c, ast.Call) and unparse(c.func) == "self._next_order_id" for c in walk_no_nested(f)) and not q.endswith("._next_order_id"):
-            prod = (q, f)
-    if prod is None:
+    # analysed with the counter helper inlined, wherever the `+= 1` lives today (helper method or the producer itself)
+    from sa.normalize import inlined_copy
+    draw_helper = repo.functions.get(f"{T}._next_order_id")
+
+    def _draws(f):
+        return any((isinstance(c, ast.Call) and unparse(c.func) == "self._next_order_id") or
+                   (isinstance(c, ast.AugAssign) and unparse(c.target) == "self._order_id") for c in walk_no_nested(f))
+    prods = [(q, f) for q, f in sorted(repo.functions.items()) if q.startswith(T + ".") and not q.endswith("._next_order_id") and _draws(f)]
+    if not prods:
         raise AnalysisError("no producer of OrderIDs found in FIXTester")
-    pq, pf = prod
+    ctx.instance(R3, "OrderID counter[one producer]", len(prods) == 1, f"OrderIDs are drawn at more than one place ({[q for q, _ in prods]}): nothing makes them agree per order", loc(prods[-1][1]))
+    pq, pf0 = prods[0]
+    pf, _ = inlined_copy(pf0, {"_next_order_id": draw_helper}, T)
     pgr = CFG(pf)
     ordn = next((a.arg for a in pf.args.args if a.arg not in ("self",) and any(unparse(x) == f"{a.arg}.order_id" for x in ast.walk(pf))), None)
     own = fresh = remembered = recorded = False
@@ -181,19 +187,18 @@ def run(ctx):
         vtxt = unparse(val) if val is not None else ""
         if ordn and vtxt == f"{ordn}.order_id" and ((f"{ordn}.order_id is not None", True) in fs or (f"{ordn}.order_id is None", False) in fs):
             own = True
-        if "self._next_order_id()" in txt:
+        if isinstance(n.ast, ast.AugAssign) and unparse(n.ast.target) == "self._order_id":
+            plus_one = isinstance(n.ast.op, ast.Add) and unparse(n.ast.value) == "1"
             in_new = any(tv and re.fullmatch(r".+ not in self\._order_ids", a) for a, tv in fs)
             own_none = (f"{ordn}.order_id is None", True) in fs or (f"{ordn}.order_id is not None", False) in fs or any(
                 isinstance(r.ast, ast.Return) and unparse(r.ast.value) == f"{ordn}.order_id" and pgr.reaches(pgr.entry, n.id, avoid={r.id}, exc=False)
                 for r in pgr.nodes if r.kind == "stmt" and isinstance(r.ast, ast.Return))
-            fresh = in_new and own_none
-            # recorded: the drawn id goes into the memo (directly, or through a local that is stored afterwards)
-            if isinstance(n.ast, ast.Assign) and any("self._order_ids[" in unparse(t) for t in n.ast.targets):
-                recorded = True
-            elif isinstance(n.ast, ast.Assign) and isinstance(n.ast.targets[0], ast.Name):
-                loc_ = n.ast.targets[0].id
-                recorded = any(m.kind == "stmt" and isinstance(m.ast, ast.Assign) and any("self._order_ids[" in unparse(t) for t in m.ast.targets) and unparse(m.ast.value) == loc_
-                               and pgr.reaches(n.id, m.id, exc=False) for m in pgr.nodes)
+            fresh = in_new and own_none and plus_one
+            # recorded: the drawn id (the counter itself, or a local holding it) goes into the memo afterwards
+            holders = {"self._order_id"} | {m.ast.targets[0].id for m in pgr.nodes if m.kind == "stmt" and isinstance(m.ast, ast.Assign)
+                                            and isinstance(m.ast.targets[0], ast.Name) and unparse(m.ast.value) == "self._order_id" and pgr.reaches(n.id, m.id, exc=False)}
+            recorded = any(m.kind == "stmt" and isinstance(m.ast, ast.Assign) and any("self._order_ids[" in unparse(t) for t in m.ast.targets) and unparse(m.ast.value) in holders
+                           and pgr.reaches(n.id, m.id, exc=False) for m in pgr.nodes)
         if "self._order_ids[" in vtxt or "self._order_ids.get(" in vtxt:
             remembered = True
     for x in ast.walk(pf):
@@ -203,7 +208,7 @@ def run(ctx):
             keys.add(unparse(x.left))
     ctx.instance(R3, f"{pq.split('.')[-1]}[OrderID: own id, else remembered, else new and remembered]", own and fresh and remembered and recorded,
                  "OrderID is not stable per order: a new id is drawn while the order has not yet processed an earlier report and nothing remembers the first one "
-                 f"(own={own}, new={fresh}, looked up={remembered}, recorded={recorded})", loc(pf))
+                 f"(own={own}, new={fresh}, looked up={remembered}, recorded={recorded})", loc(pf0))
     for k in sorted(keys):
         m = re.fullmatch(rf"{ordn}\.(\w+)", k) if ordn else None
         stable = False
@@ -225,8 +230,13 @@ def run(ctx):
                     okv = isinstance(n.value, ast.Name)
                 ctx.instance(R3, f"{q.split('.')[-1]}[OrderID(37) from the per-order record]", okv,
                              f"{q} writes OrderID(37) from `{short(n.value)}`: the helper's messages for one order do not agree on its OrderID", loc(n))
-    no = repo.func(f"{T}._next_order_id")
-    ctx.instance(R3, "_next_order_id[+1 then return]", [unparse(s) for s in no.body] == ["self._order_id += 1", "return self._order_id"], "the OrderID counter is not a plain +1", loc(no))
+    if draw_helper is not None:
+        ctx.instance(R3, "_next_order_id[+1 then return]", [unparse(s) for s in draw_helper.body if not (isinstance(s, ast.Expr) and isinstance(s.value, ast.Constant))]
+                     == ["self._order_id += 1", "return self._order_id"], "the OrderID counter is not a plain +1", loc(draw_helper))
+    wr = [(q, n) for q, f in repo.functions.items() if q.startswith(T + ".") and not q.endswith(".__init__") for n in walk_no_nested(f)
+          if isinstance(n, (ast.Assign, ast.AugAssign)) and "self._order_id" in [unparse(t) for t in (n.targets if isinstance(n, ast.Assign) else [n.target])]]
+    ctx.instance(R3, "OrderID counter[only ever incremented by one]", bool(wr) and all(isinstance(n, ast.AugAssign) and isinstance(n.op, ast.Add) and unparse(n.value) == "1" for _, n in wr),
+                 "the OrderID counter is written by something else than `+= 1`: ids can repeat", loc(wr[0][1]) if wr else loc(pf0))
 
     # ------------------------------------------------------------------ rule 4
     init = repo.func(f"{T}.__init__")
